@@ -23,6 +23,12 @@ type Node struct {
 	DB     *db.DB
 	Mod    *liskbft.Module
 	Prefix []byte
+	// Track makes the node keep the state diff of every committed op, so that the ops `revert`
+	// (delete the tip block the way consensus does: RevertDiff) and `restart` work (fork.go).
+	Track bool
+	batch int
+	diffs []*diffdb.Diff // one per committed op since genesis (Track only)
+	marks []int          // len(diffs) before each successfully processed block still on the chain
 }
 
 func NewNode(batchSize int, genesisHeight uint32) *Node {
@@ -34,7 +40,7 @@ func NewNode(batchSize int, genesisHeight uint32) *Node {
 	if err := m.Init(batchSize); err != nil {
 		panic(err)
 	}
-	n := &Node{DB: d, Mod: m, Prefix: blockchain.DBPrefixToBytes(blockchain.DBPrefixState)}
+	n := &Node{DB: d, Mod: m, Prefix: blockchain.DBPrefixToBytes(blockchain.DBPrefixState), batch: batchSize}
 	st := n.Store()
 	if err := m.InitGenesisState((&blockchain.BlockHeader{Height: genesisHeight}).Readonly(), st); err != nil {
 		panic(err)
@@ -49,8 +55,11 @@ func (n *Node) Store() *diffdb.Database { return diffdb.New(n.DB, n.Prefix) }
 
 func (n *Node) Commit(st *diffdb.Database) {
 	batch := n.DB.NewBatch()
-	st.Commit(batch)
+	diff := st.Commit(batch)
 	n.DB.Write(batch)
+	if n.Track {
+		n.diffs = append(n.diffs, diff)
+	}
 }
 
 func (n *Node) Dump() string {
@@ -136,8 +145,14 @@ func (n *Node) Step(op string) (out string) {
 		if err := n.Mod.BeforeTransactionsExecute(mkHeader(w[1], w[2], w[3], w[4], w[5]).Readonly(), st); err != nil {
 			return "err"
 		}
+		mark := len(n.diffs)
 		n.Commit(st)
+		if n.Track {
+			n.marks = append(n.marks, mark)
+		}
 		return "ok " + n.Dump()
+	case "revert", "restart", "tryblock":
+		return n.stepFork(w)
 	case "contra":
 		r, err := api.IsHeaderContradictingChain(n.Store(), mkHeader(w[1], w[2], w[3], w[4], "-").Readonly())
 		if err != nil {
